@@ -110,6 +110,14 @@ def sinks(ctx, fi):
     return [x for x in out if x[0] is not None]
 
 
+def get_transforms_filters_by_type(ctx):
+    """Proposal.get_transforms(type) is the list of the proposal's transforms of that type, in order"""
+    gt = ctx.func('message.Proposal.get_transforms')
+    G = ctx.sval(gt)
+    p0 = gt.call_params()[0]
+    return strip_ids(G.ret()) == strip_ids(G.expr('[x for x in self.transforms if x.type == %s]' % p0))
+
+
 def run(ctx):
     prog = ctx.prog
     ikesa = prog.cls(IKESA)
@@ -259,21 +267,29 @@ def run(ctx):
                            'the suggested group is the 16-bit number of the notification data', ('N4', 'suggested'), ctx.site(hk, c.node))
         offer = "self.request.get_payload(Payload.Type.SA, _).proposals[0].transforms"
         ok = False
+        dh_t = ('global', 'message.Transform.Type.DH')
         for t, pol in c.pc:
-            if not (pol and t[0] == 'cmp' and t[1] == 'in' and t[2] == sg):
+            # "some DH transform of our outstanding offer has the suggested id", however it is spelt (membership in a generator, any(),
+            # not all(.. != ..)), over `.transforms` filtered by type or over `get_transforms(Transform.Type.DH)`
+            ef = tq.exists_atom(t, pol)
+            if ef is None:
                 continue
-            coll = strip_ids(t[3])
-            if coll[0] in ('list', 'set') and len(coll[1]) == 1 and coll[1][0][0] == 'each':
-                each = coll[1][0]
-                dom, conds, item = each[2], each[3], each[4]
-                el = ('elem', dom, 0)
-                good = tq.match(H.expr(offer), dom) is not None and item == attr(el, 'id') and \
-                    conds == norm_pc(((H.mk_cmp('==', attr(el, 'type'), ('global', 'message.Transform.Type.DH')), True),))
-                if good:
-                    ok = True
-                    bad = [(rpc, rt) for rpc, rt, _ in H.raises if (t, False) in rpc]
-                    ctx.check(bool(bad) and all(tq.is_call(rt, 'new message.NoProposalChosen') for _, rt in bad), 'N4',
-                              'a suggested group we never offered raises NoProposalChosen', key=('N4', 'raise'), site=ctx.site(hk, c.node))
+            dom, conds = ef
+            el = ('elem', dom, 0)
+            want_id = (('cmp', '==') + tuple(sorted((attr(el, 'id'), strip_ids(sg)), key=repr)), True)
+            want_ty = (strip_ids(H.mk_cmp('==', attr(el, 'type'), dh_t)), True)
+            if tq.match(H.expr(offer), dom) is not None:
+                good = set(conds) == set(norm_pc((want_id, want_ty)))
+            elif tq.is_call(dom) and isinstance(dom[1], str) and dom[1].endswith('Proposal.get_transforms') \
+                    and list(tq.args(dom).values()) == [dh_t] and tq.match(H.expr(offer[:-len('.transforms')]), dom[2]) is not None:
+                good = set(conds) == set(norm_pc((want_id,))) and get_transforms_filters_by_type(ctx)
+            else:
+                good = False
+            if good:
+                ok = True
+                bad = [(rpc, rt) for rpc, rt, _ in H.raises if (t, not pol) in rpc]
+                ctx.check(bool(bad) and all(tq.is_call(rt, 'new message.NoProposalChosen') for _, rt in bad), 'N4',
+                          'a suggested group we never offered raises NoProposalChosen', key=('N4', 'raise'), site=ctx.site(hk, c.node))
         ctx.check(ok, 'N4', 'the suggested group is used only if it is a DH transform of our own outstanding proposal',
                   key=('N4', 'membership'), site=ctx.site(hk, c.node),
                   detail={'path condition': [('' if p else 'not ') + tq.text(t, 200) for t, p in c.pc]})
